@@ -276,7 +276,7 @@ def log_oracle(events, terminated, hung=False):
         for (p, t), n in regs.items():
             if p in settled_done and enqcs.get((p, t), 0) != n:
                 return "LOST WAKE-UP: task %s registered %d time(s) on promise %s, which was settled and released, " \
-                       "but was re-enqueued %d time(s); the run hangs" % (t, n, p, enqcs.get((p, t), 0))
+                       "but was re-enqueued %d time(s); the task is never resumed" % (t, n, p, enqcs.get((p, t), 0))
     if terminated:
         for (p, t), n in regs.items():
             if pubs.get(p) and enqcs.get((p, t), 0) != n:
@@ -332,7 +332,10 @@ def judge(ctx, n, q, req, ans, model_ans, stats):
     inp = {"pool": n, "queue": q, "seed": req["seed"], "tasks": ntasks, "program": req["src"], "ir": prog}
     ctx.stat("outcome:" + str(outcome))
     ctx.stat("cfg:%dx%d:%s" % (n, q, outcome))
-    pf = log_oracle(events, terminated, hung=(outcome == "timeout" and bool(ans.get("hang"))))
+    # the log is final when the run hung, or when it ended and the harness then waited in vain (600 ms)
+    # for the tasks nobody awaited
+    final = (outcome == "timeout" and bool(ans.get("hang"))) or (outcome in ("value", "error") and not ans.get("quiet"))
+    pf = log_oracle(events, terminated, hung=final)
     if pf:
         return "property-fails", inp, pf + "; outcome=" + str(outcome), False
     if outcome in ("panic", "fatal"):
